@@ -35,7 +35,7 @@ from . import smt
 from .interp import NOTSET, Interp, explore
 from .loader import Loader, all_functions
 from .refine import Result
-from .values import SV, BoundMethod, Closure, IntSV, Native, Obj, Opaque, OpaqueMethod, PathEnd, PyExc, RangeVal, Unsupported, ValSV
+from .values import SV, BoundMethod, Closure, IntSV, ListObj, Native, Obj, Opaque, OpaqueMethod, PathEnd, PyExc, RangeVal, Unsupported, ValSV
 from .catchsched import conj, same
 from .srcfac import SWorld
 
@@ -374,6 +374,56 @@ class SeqHarness:
             else:
                 self.rec(ctx, uid + "/count-n/exactly-n-times", xs.attrs["count"] != "forever" and same(xs.attrs["count"], n))
 
+    def run_for_in(self, ctx):
+        """for_in(values, mapper): one concat engine per subscription over the LAZY sequence mapper(v) for v in values - the user's
+        mapper is not called when the sequence is built; the engine's k-th request calls it exactly once, with the k-th value (so a
+        source is built only when the previous one has ended the continuing way, and a mapper that raises for a later value
+        fails the output then, not at subscribe time)."""
+        it = self.setup(ctx)
+        calls = self.capture(it)
+        mapper = Opaque("callback", "mapper")
+        values = ListObj([ctx.fresh("v0", "val"), ctx.fresh("v1", "val")])
+        mapped_by = []
+        orig_call = self.w.call
+
+        def wcall(it_, o, method, args, kwargs):
+            if o is mapper and method == "__call__":
+                mapped_by.append(list(args))
+                return Opaque("source", f"mapper-result#{len(mapped_by)}")
+            return orig_call(it_, o, method, args, kwargs)
+        self.w.call = wcall
+        # contract of the builtin map (assumed): a lazy one-shot iterator; nothing is called until an item is requested
+        it.externals["builtins.map"] = Native("map", lambda it_, a, k: Opaque("iterable", "lazy-map", fn=a[0], base=a[1] if len(a) == 2 else None))
+        import ast as _ast
+
+        def lazy_genexp(it_, node, env):
+            # (mapper(v) for v in values): as lazy as map(mapper, values) - nothing runs until an item is requested
+            if len(node.generators) == 1 and not node.generators[0].ifs and isinstance(node.generators[0].target, _ast.Name):
+                g = node.generators[0]
+                e = node.elt
+                if (isinstance(e, _ast.Call) and len(e.args) == 1 and not e.keywords and isinstance(e.args[0], _ast.Name) and e.args[0].id == g.target.id):
+                    return Opaque("iterable", "lazy-map", fn=it_.eval(e.func, env), base=it_.eval(g.iter, env))
+            return NOTSET
+        it.genexp_hook = lazy_genexp
+        uid = "reactivex/__init__.py::for_in"
+        self.built_in_defer = False
+        try:
+            it.call(it.module_get("reactivex", "for_in"), [values, mapper], {})
+        except (PyExc, Unsupported) as e:
+            self.rec(ctx, uid + "/builds-one-concat-engine-per-subscription", False, detail=str(e))
+            return
+        ok = len(calls) == 1 and calls[0][0] == "concat" and self.built_in_defer
+        self.rec(ctx, uid + "/builds-one-concat-engine-per-subscription", ok)
+        if not ok:
+            return
+        xs = calls[0][1][0]
+        self.rec(ctx, uid + "/the-mapper-is-not-called-while-the-sequence-of-sources-is-built", not mapped_by,
+                 detail=f"mapper called {len(mapped_by)} time(s) before the engine asked for a source: a later source is built (and a failing "
+                        f"mapper fails) before the earlier sources ran")
+        self.rec(ctx, uid + "/the-sequence-is-the-lazy-image-of-the-values-under-the-mapper",
+                 isinstance(xs, Opaque) and xs.name == "lazy-map" and xs.attrs.get("fn") is mapper and xs.attrs.get("base") is values,
+                 detail=f"handed to concat_with_iterable: {xs}")
+
     def run_while(self, ctx):
         it = self.setup(ctx)
         calls = self.capture(it)
@@ -426,7 +476,7 @@ class SeqHarness:
                             (OPS + "_catch.py", "catch_"), (OPS + "_onerrorresumenext.py", "on_error_resume_next_")):
                 self.functions[f"{rel}::{fn}"] = self.loader.sha(rel, fn)
             scen = [lambda ctx, _w=w_: self.run_engine(ctx, _w) for w_ in ("concat", "catch", "resume")]
-            scen += [self.run_wrappers, lambda ctx: self.run_repeat(ctx, "repeat"), lambda ctx: self.run_repeat(ctx, "retry"), self.run_while]
+            scen += [self.run_wrappers, lambda ctx: self.run_repeat(ctx, "repeat"), lambda ctx: self.run_repeat(ctx, "retry"), self.run_while, self.run_for_in]
             for f in scen:
                 for p in explore(f):
                     self.results.extend(p.results)
